@@ -991,7 +991,15 @@ func (env *sysEnv) close() {
 	if env.lb != nil && !env.wedged {
 		// (after a diagnosed lock wedge Stop could wait for ever on the same locks; the stuck
 		// goroutines are abandoned with the bubble instead)
-		env.lb.Stop()
+		// Stop itself may be what is broken: never let the teardown hang on it (a goroutine stuck
+		// in Stop is abandoned with the bubble; the scenario's own oracle has judged the run)
+		stopped := make(chan struct{})
+		go func() { env.lb.Stop(); close(stopped) }()
+		select {
+		case <-stopped:
+		case <-time.After(time.Minute):
+			env.x.Probe("teardown-stop-hung")
+		}
 	}
 	env.net.CloseAll()
 	if env.probeTr != nil {
